@@ -9,6 +9,7 @@ import (
 	"sort"
 	"strings"
 
+	"github.com/Masterminds/semver"
 	"k8s.io/utils/ptr"
 
 	"github.com/crossplane/crossplane/apis/pkg/v1beta1"
@@ -210,6 +211,32 @@ func c17DagRun(s *c17DagScn) (c17DagObs, []Mon, string) {
 		for id := range got {
 			if !want[id] {
 				mons = append(mons, Mon{Sig: "C17:implied-mismatch", Why: fmt.Sprintf("%q implied although present in the lock or not a dependency", id)})
+			}
+		}
+	}
+
+	// monitor (upgrading DAG): a lock package whose version does not satisfy an incoming
+	// constraint is returned for an upgrade check
+	if s.Upg {
+		got := map[string]bool{}
+		for _, n := range implied {
+			got[n.Identifier()] = true
+		}
+		ver := map[string]string{}
+		for _, p := range s.Pkgs {
+			ver[p.Source] = p.Version
+		}
+		for _, p := range s.Pkgs {
+			for _, dp := range p.Deps {
+				v, present := ver[dp.Pkg]
+				if !present || v == dp.Con {
+					continue
+				}
+				con, cerr := semver.NewConstraint(dp.Con)
+				sv, verr := semver.NewVersion(v)
+				if (cerr != nil || verr != nil || !con.Check(sv)) && !got[dp.Pkg] {
+					mons = append(mons, Mon{Sig: "C17:upg-violated-constraint-not-implied", Why: fmt.Sprintf("%s@%s violates %q of %s but is not returned by Init", dp.Pkg, v, dp.Con, p.Source)})
+				}
 			}
 		}
 	}
